@@ -51,7 +51,8 @@ func (bc *bufferedConn) Write(b []byte) (int, error) {
 }
 
 func (bc *bufferedConn) writeProcess() {
-	pktBuf := make([]byte, receiveMTU)
+	// One buffered item is one framed packet: the payload (up to receiveMTU) and its length prefix.
+	pktBuf := make([]byte, receiveMTU+streamingPacketHeaderLen)
 	for atomic.LoadInt32(&bc.closed) == 0 {
 		n, err := bc.buf.Read(pktBuf)
 		if errors.Is(err, io.EOF) {
